@@ -11,7 +11,22 @@ Import ListNotations.
 Definition rel_C05 (m o : obs) : bool :=
   zlist_eqb (o_started m) (o_started o) && zlist_eqb (o_consulted m) (o_consulted o).
 
+(* black-box clause, on the log alone: "an item's priority is the value given at Enqueue": right after Enqueue(p)
+   WorkItems() lists the new item (name = its index) with priority p - whatever p is (0 and negative values
+   included).  The item is listed from the moment Enqueue has stored it, even while its producer is blocked. *)
+Fixpoint mon_prio (sc : list (stim * obs)) (k : Z) : bool :=
+  match sc with
+  | [] => true
+  | (SEnq p _ _, o) :: r =>
+      forallb (fun t => negb (fst (fst t) =? k)%Z || (snd (fst t) =? p)%Z) (o_items o) && mon_prio r (k + 1)%Z
+  | (SBatch subs, _) :: r =>
+      mon_prio r (k + Z.of_nat (length (filter (fun s => match s with SEnq _ _ _ => true | _ => false end) subs)))%Z
+  | _ :: r => mon_prio r k
+  end.
+
 Definition case := wcase.
 Definition verdict (c : case) : nat :=
-  if negb (mon_nohang c) then 1 (* a caller hangs *) else classify rel_C05 c.
+  if negb (mon_nohang c) then 1 (* a caller hangs *)
+  else if negb (mon_prio (c_script c) 0%Z) then 1 (* listed priority differs from the Enqueue value *)
+  else classify rel_C05 c.
 Definition mismatches (cs : list case) : list (nat * nat) := collect verdict 0 cs.
